@@ -73,17 +73,27 @@ def conds_streamHTTP_SendMsg : List String := [
   ]
 
 def stmts_streamHTTP_SendMsg : List String := [
+   "{",
    "reply := m.(proto.Message)",
    "cur, err := mutablePath(reply.ProtoReflect(), s.method.resp)",
+   "if err != nil {",
+   "return err",
+   "}",
    "msg := cur.Interface()",
    "contentType := s.accept",
    "c, err := s.getCodec(contentType, cur)",
+   "if err != nil {",
+   "return err",
+   "}",
    "bytes := bytesPool.Get().(*[]byte)",
    "b := (*bytes)[:0]",
-   "defer func(…)",
-   "func-literal",
+   "defer func() {",
+   "if cap(b) < s.opts.maxReceiveMessageSize {",
    "*bytes = b",
    "bytesPool.Put(bytes)",
+   "}",
+   "}()",
+   "if cur.Descriptor().FullName() == \"google.api.HttpBody\" {",
    "fds := cur.Descriptor().Fields()",
    "fdContentType := fds.ByName(protoreflect.Name(\"content_type\"))",
    "fdData := fds.ByName(protoreflect.Name(\"data\"))",
@@ -91,13 +101,24 @@ def stmts_streamHTTP_SendMsg : List String := [
    "pData := cur.Get(fdData)",
    "b = append(b, pData.Bytes()...)",
    "contentType = pContentType.String()",
+   "} else {",
    "var err error",
    "b, err = c.MarshalAppend(b, msg)",
-   "_, err := s.writeMsg(c, b, contentType)",
-   "fRsp, ok := s.w.(http.Flusher)",
+   "if err != nil {",
+   "return status.Errorf(codes.Internal, \"%s: error while marshaling: %v\", c.Name(), err)",
+   "}",
+   "}",
+   "if _, err := s.writeMsg(c, b, contentType); err != nil {",
+   "return err",
+   "}",
+   "if fRsp, ok := s.w.(http.Flusher); ok {",
    "fRsp.Flush()",
-   "stats := s.opts.statsHandler",
-   "stats.HandleRPC(s.ctx, outPayload(false, m, b, time.Now()))"
+   "}",
+   "if stats := s.opts.statsHandler; stats != nil {",
+   "stats.HandleRPC(s.ctx, outPayload(false, m, b, time.Now()))",
+   "}",
+   "return nil",
+   "}"
   ]
 
 def conds_streamHTTP_writeMsg : List String := [
@@ -130,21 +151,47 @@ def conds_NewMux : List String := [
   ]
 
 def stmts_NewMux : List String := [
-   "// Apply options. var muxOpts = defaultMuxOptions",
+   "{",
+   "// Apply options.",
+   "var muxOpts = defaultMuxOptions",
+   "for _, opt := range opts {",
    "opt(&muxOpts)",
+   "}",
+   "if muxOpts.codecs == nil {",
    "muxOpts.codecs = make(map[string]Codec)",
-   "_, ok := muxOpts.codecs[k]",
+   "}",
+   "for k, v := range defaultCodecs {",
+   "if _, ok := muxOpts.codecs[k]; !ok {",
    "muxOpts.codecs[k] = v",
+   "}",
+   "}",
    "muxOpts.codecsByName = make(map[string]Codec)",
+   "for _, v := range muxOpts.codecs {",
    "muxOpts.codecsByName[v.Name()] = v",
-   "_, ok := v.(codecHTTPBody)",
+   "}",
+   "for k, v := range muxOpts.codecs {",
+   "if _, ok := v.(codecHTTPBody); ok {",
+   "continue",
+   "}",
    "muxOpts.contentTypeOffers = append(muxOpts.contentTypeOffers, k)",
+   "}",
    "sort.Strings(muxOpts.contentTypeOffers)",
+   "if muxOpts.compressors == nil {",
    "muxOpts.compressors = make(map[string]Compressor)",
-   "_, ok := muxOpts.compressors[k]",
+   "}",
+   "for k, v := range defaultCompressors {",
+   "if _, ok := muxOpts.compressors[k]; !ok {",
    "muxOpts.compressors[k] = v",
+   "}",
+   "}",
+   "for k := range muxOpts.codecs {",
    "muxOpts.encodingTypeOffers = append(muxOpts.encodingTypeOffers, k)",
-   "sort.Strings(muxOpts.encodingTypeOffers)"
+   "}",
+   "sort.Strings(muxOpts.encodingTypeOffers)",
+   "return &Mux{",
+   "opts: muxOpts,",
+   "}, nil",
+   "}"
   ]
 
 end Larking.Expected.C04
